@@ -98,14 +98,32 @@ Definition agrees (s : st) (univ : list ent) (strict_files : bool) (o : obs) : b
 Definition is_removal (a : action) : bool :=
   match a with AEntRemove _ _ | AEntRemoveAll _ | ACacheRemove _ _ | ACacheRemoveAll | ACliRm _ | ACliWipe => true | _ => false end.
 
+(* clock files appear when clocks are witnessed (merges, opening with clock loaders): not this property's business; after
+   a step that is not a removal the model takes their presence from the observation *)
+Definition sync_clocks (strict : bool) (s : st) (o : obs) : st :=
+  if strict then s
+  else with_files s (if memN F_clocks (o_files o) then add_file F_clocks (files s) else no_clocks (files s)).
+
 (* index of the first step on which model and implementation differ *)
 Fixpoint replay (c : case) (s : st) (prev : obs) (steps : list (action * xout * obs)) (i : nat) : option nat :=
   match steps with
   | [] => None
   | (a, out, o) :: t =>
       let '(s', mo) := step (xo_of (x_xtab c)) (post_of (x_remotes c) prev o) a s in
-      if out_agrees mo out && agrees s' (x_univ c) (is_removal a) o then replay c s' o t (S i) else Some i
+      if out_agrees mo out && agrees s' (x_univ c) (is_removal a) o then replay c (sync_clocks (is_removal a) s' o) o t (S i) else Some i
   end.
+(* which component differs at the first divergence: [outcome; refs; config; files; cache] *)
+Fixpoint replay_why (c : case) (s : st) (prev : obs) (steps : list (action * xout * obs)) : list bool :=
+  match steps with
+  | [] => []
+  | (a, out, o) :: t =>
+      let '(s', mo) := step (xo_of (x_xtab c)) (post_of (x_remotes c) prev o) a s in
+      if out_agrees mo out && agrees s' (x_univ c) (is_removal a) o then replay_why c (sync_clocks (is_removal a) s' o) o t
+      else [out_agrees mo out; set_eqb ref_eqb (refs s') (o_refs o); cfg_eqb (conf s') (o_conf o);
+            set_eqb N.eqb (no_clocks (files s')) (no_clocks (o_files o)); set_eqb N.eqb (files s') (o_files o);
+            match o_cache o with Some k => cache_agrees s' (x_univ c) k | None => true end]
+  end.
+
 Definition divergence (c : case) : option nat :=
   if agrees (state_of (x_remotes c) (x_init c)) (x_univ c) true (x_init c)
   then replay c (state_of (x_remotes c) (x_init c)) (x_init c) (x_steps c) 1
@@ -223,4 +241,5 @@ Definition ok_trace (c : case) : list bool :=
 Definition C14_ok (c : case) : bool := forallb (fun b => b) (ok_trace c).
 Definition failing (cs : list case) : list nat := index_filter C14_ok 0 cs.
 
-Definition explain (c : case) := (divergence c, ok_trace c).
+Definition explain (c : case) :=
+  (divergence c, replay_why c (state_of (x_remotes c) (x_init c)) (x_init c) (x_steps c), ok_trace c).
